@@ -31,8 +31,8 @@ PAYLOADS = (["jt:" + v for v in VALS] + ["js:" + k for k in "TRGS"] + ["ji", "jo
 # one representative per behaviour class, used where the chain space is enumerated exhaustively at depth 4
 REP_PAYLOADS = ["jt:P1", "jt:O1", "jt:R1", "jt:G3", "jt:V1", "js:T", "ji", "jo", "np:O1", "nr:J4", "nr:WI6", "nq:E1", "no"]
 
-QUICK_REP = ["jt:O1", "nr:WI6"]
-ENTRY_REP = ["jt:O1", "jt:G3", "jt:R1", "js:T", "ji", "np:O1", "nr:J4", "no"]
+QUICK_REP = ["jt:O1"]
+ENTRY_REP = ["jt:O1", "jt:G3", "ji", "nr:J4", "no"]
 THOROUGH_REP = ["jt:O1", "jt:O3", "jt:R1", "jt:G3", "jt:V1", "jt:U1", "js:T", "ji", "jo", "np:O1", "nr:J4", "nr:WI6", "nr:X14", "no"]
 
 GOVAL = {"G1": "E1", "G3": "W3", "G4": "J4", "G6": "WI6", "V1": "E1"}       # JS values holding a Go error in .value
